@@ -218,6 +218,9 @@ def rules(ctx: Ctx) -> None:
     # ---- R16.8 (= R08.2): look-up keys among CTE aliases are normalised exactly once
     _imp16(ctx, "C08", {"R08.2": "R16.8"})
 
+    # ---- R16.9 (= R02.11): the qualifier of a dotted column reference is the part next to the column
+    _imp16(ctx, "C02", {"R02.11": "R16.9"})
+
 
 def reference_parts_rule(ctx: Ctx, rule: str) -> None:
     """The parts of a dotted reference come from the parse tree (identifier children), never from splitting its text at '.': a quoted
